@@ -24,18 +24,18 @@ def resolve (d : Option Str) (m : Str) : Str := d.getD m
 
 def findPat (name : String) : Pat := Tract.findRx name
 
+/-- one match of `sub_scrubber`'s per-span substitution: (output so far, end of the previous match) -/
+def subScrubStep (p : Pat) (txt : Str) (ns ew : Str) (ocr : Bool) (st : Str × Nat) (m : Match) : M (Str × Nat) :=
+  match unpackTwprge p m txt ns ew ocr with
+  | .error e => .error e
+  | .ok clean => .ok (st.1 ++ slice txt st.2 m.start ++ clean ++ [' '], m.stop)
+
 /-- `sub_scrubber(rgx, txt, default_ns, default_ew)` (per-span substitution) -/
-def subScrubber (name : String) (txt : Str) (ns ew : Str) : M Str := do
+def subScrubber (name : String) (txt : Str) (ns ew : Str) : M Str :=
   let p := findPat name
-  let ocr := name == Gen.PLSS_OCR_SCRUBBER
-  let ms := p.rx.finditer txt
-  let mut out : Str := []
-  let mut i := 0
-  for m in ms do
-    let clean ← unpackTwprge p m txt ns ew ocr
-    out := out ++ slice txt i m.start ++ clean ++ [' ']
-    i := m.stop
-  return out ++ txt.drop i
+  match (p.rx.finditer txt).foldlM (subScrubStep p txt ns ew (name == Gen.PLSS_OCR_SCRUBBER)) ([], 0) with
+  | .error e => .error e
+  | .ok st => .ok (st.1 ++ txt.drop st.2)
 
 def reduceWhitespaceStep (t : Str) : Str :=
   let t := Gen.inl_plss_preprocess_reduce_whitespace_0.sub (S " ") t
@@ -64,27 +64,37 @@ structure PPResult where
   diverged : Bool := false
   deriving Inhabited
 
-def plssPreprocess (mc : MC) (txt : Str) (defNS defEW : Option Str) (ocr : Bool) : M PPResult := do
+def scrubberNames (ocr : Bool) : List String :=
+  if ocr then Gen.PLSS_OCR_SCRUBBER :: Gen.PLSS_SCRUBBER_REGEXES else Gen.PLSS_SCRUBBER_REGEXES
+
+/-- Twp/Rges present after preprocessing that were not there before (multiset difference, in order) -/
+def fixedTwprges (orig processed : List Str) : List Str :=
+  orig.foldl (fun acc tr => if acc.contains tr then listRemoveFirst acc tr else acc) processed
+
+def plssPreprocess (mc : MC) (txt : Str) (defNS defEW : Option Str) (ocr : Bool) : M PPResult :=
   let ns := resolve defNS mc.ns
   let ew := resolve defEW mc.ew
   -- find_twprge(txt) uses MasterConfig defaults
-  let orig ← findTwprgeRaw txt mc.ns mc.ew
-  let names := if ocr then Gen.PLSS_OCR_SCRUBBER :: Gen.PLSS_SCRUBBER_REGEXES else Gen.PLSS_SCRUBBER_REGEXES
-  let mut t := txt
-  for n in names do
-    t ← subScrubber n t ns ew
-  match reduceWhitespace t with
-  | none => return { text := t, fixed := [], diverged := true }
-  | some t2 =>
-    let processed ← findTwprgeRaw t2 mc.ns mc.ew
-    let fixed := orig.foldl (fun acc tr => if acc.contains tr then listRemoveFirst acc tr else acc) processed
-    return { text := t2, fixed := fixed }
+  match findTwprgeRaw txt mc.ns mc.ew with
+  | .error e => .error e
+  | .ok orig =>
+    match (scrubberNames ocr).foldlM (fun t n => subScrubber n t ns ew) txt with
+    | .error e => .error e
+    | .ok t =>
+      match reduceWhitespace t with
+      | none => .ok { text := t, fixed := [], diverged := true }
+      | some t2 =>
+        match findTwprgeRaw t2 mc.ns mc.ew with
+        | .error e => .error e
+        | .ok processed => .ok { text := t2, fixed := fixedTwprges orig processed }
 
 /-- public `find_twprge(text, default_ns, default_ew, preprocess, ocr_scrub)` -/
-def findTwprge (mc : MC) (text : Str) (defNS defEW : Option Str) (preprocess ocr : Bool) : M (List Str) := do
-  let pre := preprocess || ocr
-  let text ← if pre then (do let r ← plssPreprocess mc text defNS defEW ocr; pure r.text) else pure text
-  findTwprgeRaw text (resolve defNS mc.ns) (resolve defEW mc.ew)
+def findTwprge (mc : MC) (text : Str) (defNS defEW : Option Str) (preprocess ocr : Bool) : M (List Str) :=
+  if preprocess || ocr then
+    match plssPreprocess mc text defNS defEW ocr with
+    | .error e => .error e
+    | .ok r => findTwprgeRaw r.text (resolve defNS mc.ns) (resolve defEW mc.ew)
+  else findTwprgeRaw text (resolve defNS mc.ns) (resolve defEW mc.ew)
 
 def findSec (text : Str) : List Str :=
   (multisec.rx.finditer text).flatMap (fun m => (unpackSections (m.group0 text)).secList)
@@ -154,7 +164,7 @@ structure TRFindSt where
 
 /-- the rightmost section match between `j` and `i` (and the new `j`): `for sec_mo in finditer(txt, pos=j, endpos=i)` -/
 def lastSecBefore (txt : Str) (j i : Nat) : Option Match × Nat :=
-  (multisec.rx.finditer txt j i).foldl (fun acc sm => (some sm, sm.start)) (none, j)
+  (multisec.rx.finditer txt j i).foldl (fun _ sm => (some sm, sm.start)) (none, j)
 
 /-- one iteration of `findall_matching_twprge` -/
 def trFindStep (mc : MC) (txt : Str) (layout : Str) (st : TRFindSt) (mo : Match) : M TRFindSt :=
